@@ -99,9 +99,9 @@ func runC20(c *Ctx) {
 	if f := p.Method(pkgKS, "KeyStorage", "DeleteKeySlot"); c.NeedFunc("R20.2", f, ksT+".DeleteKeySlot") {
 		lenSlots := "call:builtin.len(call:(*api/key_storage.Storage).GetKeySlots(param#0.underlying))"
 		c.mustCutEach("R20.2", "delete(slot)", f, slotMapWrite, 1, map[string]EdgePred{
-			"len(slots) != 0":   FactEdge("ne(" + lenSlots + ",const:0)"),
-			"len(slots) != 1":   FactEdge("ne(" + lenSlots + ",const:1)", "gt("+lenSlots+",const:1)", "ge("+lenSlots+",const:2)"),
-			"getKey(slot) ok":   getKeyOK,
+			"len(slots) != 0": FactEdge("ne(" + lenSlots + ",const:0)"),
+			"len(slots) != 1": FactEdge("ne("+lenSlots+",const:1)", "gt("+lenSlots+",const:1)", "ge("+lenSlots+",const:2)"),
+			"getKey(slot) ok": getKeyOK,
 		})
 
 		for _, in := range Find(f, slotMapWrite) {
@@ -162,13 +162,13 @@ func runC20(c *Ctx) {
 		})
 
 		dcalls := p.Calls(f, "github.com/ProtonMail/gopenpgp/v2/helper.DecryptBinaryMessageArmored")
-		c.Check(len(dcalls) == 1 && p.ArgDesc(dcalls[0], 0) == "param#2" && Glob("*lookup(call:(*api/key_storage.Storage).GetKeySlots(param#0.underlying),param#1)#0.EncryptedKey", p.ArgDesc(dcalls[0], 2)),
+		c.Check(len(dcalls) == 1 && p.ArgDesc(dcalls[0], 0) == "param#2" && p.FieldOfLeaves(CallArgs(dcalls[0])[2], "EncryptedKey", "lookup(call:(*api/key_storage.Storage).GetKeySlots(param#0.underlying),param#1)#0", "lookup(call:(*api/key_storage.Storage).GetKeySlots(param#0.underlying),param#1)"),
 			"R20.4", FuncName(f)+" :: decrypts the requested slot's blob with the presented private key", fpos(f), "yes", "decrypts something else")
 	}
 
 	if f := p.Method(pkgKS, "KeyStorage", "verifyKeySlots"); c.NeedFunc("R20.4", f, ksT+".verifyKeySlots") {
 		cmp := "call:crypto/subtle.ConstantTimeCompare(call:" + ksT + ".hashSlots(param#0,param#1),call:(*api/key_storage.Storage).GetKeysHmacHash(param#0.underlying))"
-		c.MustCut("R20.4", "return nil ⊣ {ConstantTimeCompare(hashSlots(key), stored tag) != 0}", f, ReturnsNilConst(0), CutSpec{Edges: FactEdge("ne(" + cmp + ",const:0)", "eq("+cmp+",const:1)")}, 1)
+		c.MustCut("R20.4", "return nil ⊣ {ConstantTimeCompare(hashSlots(key), stored tag) != 0}", f, ReturnsNilConst(0), CutSpec{Edges: FactEdge("ne("+cmp+",const:0)", "eq("+cmp+",const:1)")}, 1)
 		c.Check(len(Find(f, ReturnsNilConst(0))) == 1 && len(Find(f, ReturnsNonNil(0))) == 1, "R20.4", FuncName(f)+" :: exactly one accept and one reject exit", fpos(f), "yes", "verification has additional exits")
 	}
 
@@ -189,15 +189,26 @@ func runC20(c *Ctx) {
 
 	if f := p.Method(pkgKS, "KeyStorage", "hashSlots"); c.NeedFunc("R20.5", f, ksT+".hashSlots") {
 		write := p.CallTo("(io.Writer).Write", "(hash.Hash).Write")
-		c.MustCut("R20.5", "Write ⊣ {sort.Strings(keys)}", f, write, CutSpec{Nodes: p.CallTo("sort.Strings", "slices.Sort")}, 1)
-
 		ws := p.Calls(f, "(io.Writer).Write", "(hash.Hash).Write")
 		ok := len(ws) == 1
 		d := ""
+		slots := "call:(*api/key_storage.Storage).GetKeySlots(param#0.underlying)"
 
 		if ok {
 			d = p.DescN(CallArgs(ws[0])[1], 7)
-			ok = strings.Contains(d, "GetKeySlots(param#0.underlying)") && strings.HasSuffix(d, ".EncryptedKey") && strings.Contains(d, "github.com/siderolabs/gen/maps.Keys(")
+			ok = strings.Contains(d, "GetKeySlots(param#0.underlying)") && strings.HasSuffix(d, ".EncryptedKey") && strings.Contains(d, "maps.Keys(")
+		}
+
+		// accepted forms: keys := maps.Keys(slots); sort.Strings(keys) / slices.Sort(keys); for … range keys
+		//                 for … range slices.Sorted(maps.Keys(slots))
+		if strings.Contains(d, "index(call:slices.Sorted(call:maps.Keys("+slots+"))") {
+			c.OK("R20.5", FuncName(f)+" :: Write ⊣ {sort.Strings(keys)}", fpos(f), "iterates slices.Sorted(maps.Keys(slots))")
+			c.OK("R20.5", FuncName(f)+" :: the sorted slice is the key set that is iterated", fpos(f), "iterates slices.Sorted(maps.Keys(slots))")
+		} else {
+			c.MustCut("R20.5", "Write ⊣ {sort.Strings(keys)}", f, write, CutSpec{Nodes: p.CallTo("sort.Strings", "slices.Sort")}, 1)
+
+			sorts := p.Calls(f, "sort.Strings", "slices.Sort")
+			c.Check(len(sorts) == 1 && Glob("call:*maps.Keys("+slots+")", p.ArgDesc(sorts[0], 0)), "R20.5", FuncName(f)+" :: the sorted slice is the key set that is iterated", fpos(f), "yes", "sorts something else")
 		}
 
 		c.Check(ok, "R20.5", FuncName(f)+" :: writes keySlots[key].EncryptedKey for every key of the slot map", fpos(f), short(d, 140), "writes "+d)
@@ -205,7 +216,5 @@ func runC20(c *Ctx) {
 		hm := p.Calls(f, "crypto/hmac.New")
 		c.Check(len(hm) == 1 && p.ArgDesc(hm[0], 1) == "param#1" && Glob("func:crypto/sha256.New", p.ArgDesc(hm[0], 0)), "R20.5", FuncName(f)+" :: HMAC-SHA256 keyed by the master key", fpos(f), "yes", "MAC construction changed")
 
-		sorts := p.Calls(f, "sort.Strings", "slices.Sort")
-		c.Check(len(sorts) == 1 && Glob("call:github.com/siderolabs/gen/maps.Keys(*", p.ArgDesc(sorts[0], 0)), "R20.5", FuncName(f)+" :: the sorted slice is the key set that is iterated", fpos(f), "yes", "sorts something else")
 	}
 }
